@@ -10,8 +10,7 @@ CURRENT source tree.
     get_compile_args().
 
 Values are read, never the source layout.  Anything unexpected raises TranslatorError (the check then counts
-the obligation as broken).  The source root is $AV_C09_SRC (default /repo/src) so that the check can be
-tried on a mutated scratch copy without touching /repo.
+the obligation as broken).  The tree under test is $AV_REPO (default /repo), see BUILDERS.md.
 """
 import json
 import os
@@ -31,7 +30,7 @@ class TranslatorError(RuntimeError):
 
 
 def src_root():
-    return os.environ.get("AV_C09_SRC", "/repo/src")
+    return os.path.join(os.environ.get("AV_REPO", "/repo"), "src")
 
 
 def _need(cond, msg):
@@ -152,7 +151,7 @@ def render(py, c, src):
         "(* 256 character classes followed by 9 rows of 16 next-states *)\n" + _nlist("dfa_py", py)
     f_c = HEAD.format(what=src + "/autobahn/nvx/_utf8validator.c (compiled dumper)") + \
         "(* UTF8VALIDATOR_DFA as the C compiler sees it *)\n" + _nlist("dfa_c", c["dfa"]) + \
-        "(* one call of _nvx_utf8vld_validate_table(vld,&b,1) with vld->state = s, fresh indices; entry s*256+b:\n" \
+        "(* one call of _nvx_utf8vld_validate_table(vld,&b,1) with vld->state = s, current_index = 77,\n   total_index = 1000; entry s*256+b:\n" \
         "   (new state, return value + 1, current_index, total_index) *)\n" + _quads("c_table_fn_obs", c["table_fn"]) + \
         f"(* implementation selected by nvx_utf8vld_new() and accepted by set_impl(1..4) with the build flags\n" \
         f"   {' '.join(c['cflags'])} *)\n" \
